@@ -943,3 +943,21 @@ pub(crate) fn lex<'a, 'b, I: Interrupt>(
 		int,
 	}
 }
+
+// verif-hooks (add-only, read-only): the lexer's unconsumed input and the
+// private number parser, for the external verification harness.
+#[cfg(feature = "verif-hooks")]
+impl<I: Interrupt> Lexer<'_, '_, I> {
+	pub(crate) fn verif_remaining(&self) -> &str {
+		self.input
+	}
+}
+
+#[cfg(feature = "verif-hooks")]
+pub(crate) fn verif_parse_number<'a, I: Interrupt>(
+	input: &'a str,
+	decimal_separator: DecimalSeparatorStyle,
+	int: &I,
+) -> FResult<(Number, &'a str)> {
+	parse_number(input, decimal_separator, int)
+}
